@@ -262,7 +262,7 @@ Definition opt_is_none {A} (o : option A) : bool := match o with None => true | 
 
 (** thread 0 is the main thread of the process: it exists from the start and runs its program *)
 Definition thread_main0 : thread :=
-  mkThread 0 None false None 0 Idle CbNone (mkGhost 1 0 (Some 0) None None false 0 0 0 0 0 0 None None).
+  mkThread 0 None false None 0 Idle CbNone (mkGhost 1 0 (Some 0) None None false 0 1 0 1 0 0 None None).
 
 Definition init_state (n : nat) : state :=
   mkState (thread_main0 :: repeat tnone n) 0 false false [].
